@@ -323,6 +323,8 @@ def correspondence(res, tier, rng):
         dt, start = rng.choice(DTS), rng.choice(STARTS)
         nst = rng.randrange(0, 4)
         calls = gen_calls(rng, d, nst, dt, start, cplx=True)
+        if nst > 0:      # a post control that does not commute with propagators / MPOs, felt by all later steps
+            calls.append((True, "i", rng.randrange(0, nst), rand_superop(rng, d, "nontp", True)[0], "nontp"))
         rho = rand_state(rng, d, True)
         sysm = oqupy.System(rand_herm(rng, d))
         props = sysm.get_propagators(dt, start, SUBDIV_LIMIT, INTEGRATE_EPSREL)
@@ -368,6 +370,14 @@ def correspondence(res, tier, rng):
                     a = a.real
                 cc.add_single_site_control(np.array(a), site, stp, post=post)
                 regs.append((post, site, stp, dims[site] ** 2, np.array(a, dtype=complex)))
+        if i % 4 == 0 and nsites >= 2:
+            # a stack on one site interleaved with another site's control (same step and side)
+            stp, post = rng.randrange(-1, 3), rng.random() < 0.5
+            sa, sb = rng.sample(range(nsites), 2)
+            for site in rng.choice([(sa, sb, sa), (sa, sb, sb, sa), (sb, sa, sb, sa)]):
+                a = rand_superop(rng, dims[site], "nontp")[0].real
+                cc.add_single_site_control(np.array(a), site, stp, post=post)
+                regs.append((post, site, stp, dims[site] ** 2, np.array(a, dtype=complex)))
         step = rng.randrange(-1, 3)
         qpost = rng.random() < 0.4
         if regs and rng.random() < 0.7:
@@ -397,6 +407,15 @@ def correspondence(res, tier, rng):
     n_tb = 16 if q else 150
     for i in range(n_tb):
         case = gen_chain_case(rng, with_h=(i % 2 == 1))
+        if i % 3 == 0:
+            nsi = len(case["dims"])
+            sa, sb = rng.sample(range(nsi), 2)
+            post = rng.random() < 0.5
+            stp = case["start_step"] + rng.randrange(0, case["nsteps"] + (0 if post else 1))
+            for site in (sa, sb, sa):
+                a = rand_superop(rng, case["dims"][site], "nontp", False, gentle=True)[0]
+                case["regs"].append({"post": post, "site": site, "step": stp, "op": jmat(a)})
+            res.count("tebd:interleaved-stack")
         obs = run_pttebd(case)
         res.count("tebd:sites=%d" % len(case["dims"]))
         res.count("tebd:hamiltonian=%s" % case["with_h"])
@@ -655,9 +674,16 @@ def oracle_single(case):
     rho = unjmat(case["state"])
     calls = [(c["post"], c["kind"], c["key"], unjmat(c["op"]), "") for c in case["calls"]]
     rec = bool(case.get("record_all", True))
+    pts = None
+    if case.get("pt") and n > 0:
+        # environments that do nothing: the dense reference is unchanged, the code takes its
+        # process-tensor path (bond legs, MPOs, caps)
+        from . import oq
+        pts = [oq.identity_pt(n, d) for _ in range(int(case["pt"]))]
     with quiet():
         dyn = oqupy.compute_dynamics(system=oqupy.System(h), initial_state=rho.copy(), dt=dt,
-                                     num_steps=n, start_time=start, control=make_control(d, calls),
+                                     num_steps=n, start_time=start, process_tensor=pts,
+                                     control=make_control(d, calls),
                                      record_all=rec, progress_type="silent")
     lv = -1j * (np.kron(h, np.eye(d)) - np.kron(np.eye(d), h.T))
     u = expm(lv * dt)
@@ -902,6 +928,21 @@ def search(res, rng=None):
             if first == "f":
                 calls = [calls[1], calls[0]]
             run(KEY_MIXED, single_case(rng, 2, 2, 0.1, 0.0, calls))
+    # -- with (do-nothing) process tensors: controls that do not commute with the propagator, all
+    #    later states compared ---------------------------------------------------------------------
+    for npt in (1, 2):
+        for (n, stp) in ((2, 0), (3, 1), (3, 2)):
+            for (kind, key) in (("i", stp), ("f", 0.2 * stp + 0.03)):
+                run("Control post-measurement control with a process tensor",
+                    dict(single_case(rng, 2, n, 0.2, 0.0, [(True, kind, key, op(), "")]), pt=npt))
+                run("Control pre-measurement control with a process tensor",
+                    dict(single_case(rng, 2, n, 0.2, 0.0, [(False, kind, key, op(), "")]), pt=npt))
+        calls = [(True, "i", 0, op(), ""), (False, "i", 1, op(), ""), (True, "i", 1, op(), ""),
+                 (True, "i", 1, op(), ""), (False, "i", 3, op(), "")]
+        run("Control post-measurement control with a process tensor",
+            dict(single_case(rng, 2, 3, 0.25, 0.5, calls), pt=npt))
+        run("Control post-measurement control with a process tensor",
+            dict(single_case(rng, 2, 3, 0.25, 0.5, calls), pt=npt, record_all=False))
     # -- the same stacks, insensitive to the order finding but sensitive to a control that does not
     #    act: non-commuting, non-unitary maps; the result must be one of the two orders --------------
     search_mixed_all_act(res, rng)
@@ -911,6 +952,21 @@ def search(res, rng=None):
             regs = [{"post": post, "site": 0, "step": 1, "op": jmat(op())} for _ in range(m)]
             run(KEY_CHAIN_ORDER, {"api": "ChainControl.get_single_site_controls", "dims": [2, 2],
                                   "regs": regs, "step": 1, "post": post})
+    # -- a stack on one site interleaved with controls of other sites (same step and side) ---------
+    key_il = "ChainControl stack on one site interleaved with another site's control"
+    for post in (False, True):
+        for (s0, nsteps, stp) in ((0, 2, 0), (0, 2, 1), (0, 2, 2), (2, 1, 3)):
+            for pattern in ((0, 1, 0), (2, 0, 2, 1, 2), (1, 0, 0, 1)):
+                regs = [{"post": post, "site": st, "step": stp, "op": jmat(op())} for st in pattern]
+                run(key_il, {"api": "ChainControl.get_single_site_controls", "dims": [2, 2, 2],
+                             "regs": regs, "step": stp, "post": post})
+                if post and stp == s0 + nsteps:
+                    continue                   # never observable in a run
+                base = gen_chain_case(rng, with_h=False, stacks=1)
+                run(key_il + " (PtTebd run)",
+                    dict(base, dims=[2, 2, 2], start_step=s0, nsteps=nsteps, regs=regs,
+                         states=[jmat(rand_state(rng, 2, False)) for _ in range(3)],
+                         hams=[jmat(np.zeros((2, 2))) for _ in range(3)], with_h=False))
     # -- object lifetime: controls registered after the PtTebd object was built -------------------
     for mode in ("object", "property", "setter", "object", "property"):
         for _ in range(2):
